@@ -9,7 +9,7 @@ ID = 'C07'
 RULE = ('A case is (file, optional cut = keep only the first k result times, list of navigation actions with abstract '
         'arguments resolved against the file at run time). Actions: first, last, next, prev, index=i (0, n-1, -1, -n, middle, '
         'any i in [-n, n-1]), time=t and step=s (exact, between two results at a fraction, before the first, after the last), '
-        'history(one of two fixed selections). exhaustive: every sequence of length <= 3 (4 in thorough) over a 17-letter '
+        'history(one of two fixed selections). exhaustive: every sequence of length <= 3 (4 in thorough) over a 19-letter '
         'alphabet on the shipped files under 100 kB with >= 2 times and on 2-time cuts of others, every sequence of length <= 2 '
         'on every other file with >= 2 times; random: Hypothesis lists of up to 40 actions on any file with >= 2 times and on '
         'truncated copies with 1..N-1 times. After every action (index, time, step, every table: row names, column names, '
@@ -23,7 +23,7 @@ ASSUMPTIONS = ['index accepts -n..n-1 (negative = from the end, as last() uses)'
 ALPHABET = [['first'], ['last'], ['next'], ['prev'],
             ['index', 'zero'], ['index', 'neg1'], ['index', 'negn'], ['index', 'mid'],
             ['time', 'exact', 1], ['time', 'between', 0, 0.3], ['time', 'before'], ['time', 'after'],
-            ['step', 'exact', 0], ['step', 'between', 0, 0.7],
+            ['step', 'exact', 0], ['step', 'between', 0, 0.7], ['time', 'inf-after'], ['step', 'far-after'],
             ['history', 0], ['history', 1], ['history', 2]]
 
 # ------------------------------------------------------------------------------------------------
@@ -82,7 +82,7 @@ def random_case(draw):
         st.tuples(st.just('index'), st.one_of(st.sampled_from(['zero', 'neg1', 'negn', 'mid']), st.integers(-40, 40))).map(list),
         st.one_of(st.tuples(st.sampled_from(['time', 'step']), st.just('exact'), k),
                   st.tuples(st.sampled_from(['time', 'step']), st.just('between'), k, frac),
-                  st.tuples(st.sampled_from(['time', 'step']), st.sampled_from(['before', 'after']))).map(list),
+                  st.tuples(st.sampled_from(['time', 'step']), st.sampled_from(['before', 'after', 'before', 'after', 'far-after', 'inf-after', 'far-before', 'inf-before']))).map(list),
         st.tuples(st.just('history'), st.integers(0, 2)).map(list))
     ops = draw(st.lists(op, min_size=1, max_size=40))
     return {'file': rel, 'cut': cut, 'ops': ops}
@@ -135,6 +135,12 @@ def resolve_value(kind, arr, op):
     elif mode == 'after':
         x = a[-1] * 2.0 + 1.0
         if kind == 'step': x = int(a[-1]) + 7
+    elif mode in ('far-after', 'inf-after', 'far-before', 'inf-before'):
+        # beyond the last / before the first result by more than floating point can tell the results apart
+        sgn = 1.0 if mode.endswith('after') else -1.0
+        x = sgn * (float('inf') if mode.startswith('inf') else 1e300)
+        if kind == 'step' and mode.startswith('far'): x = int(sgn) * 10 ** 18
+        return x, ({n - 1} if sgn > 0 else {0})
     else:
         raise HarnessError('bad mode %r' % mode)
     return x, nearest(a, float(x))
